@@ -17,7 +17,10 @@ HOW = "build/bin/http -family crash -case <file with the case JSON> | build/bin/
 
 def describe(c):
     rs = ", ".join("%s -> %s" % (r["name"][:40], r["path"][:60]) for r in c.get("routes", []) or [])
-    return "kind=%s where=%s addr=%s routes=[%s]" % (c.get("kind"), c.get("where"), str(c.get("addr"))[:40], rs)
+    extra = ""
+    if c.get("prefix") is not None:
+        extra = " wildcard-prefix=%r request-paths=%r" % (c.get("prefix")[:40], [p[:30] for p in (c.get("paths") or [])])
+    return "kind=%s where=%s addr=%s routes=[%s]%s" % (c.get("kind"), c.get("where"), str(c.get("addr"))[:40], rs, extra)
 
 
 def run(run):
@@ -70,6 +73,10 @@ def run(run):
             run.violation("crash:%s:%s" % (d.get("case", {}).get("kind"), ck), payload,
                           "an accepted value crashes the process although the model predicts no crash: %s :: %s" % (
                               describe(d.get("case", {})), (d.get("detail") or "")[:200]))
+        elif kind == "handler-panic":
+            run.violation("handler-panic:%s:%s" % (d.get("case", {}).get("kind"), ck), payload,
+                          "request handling panics for an accepted value (recovered per connection by net/http, the client "
+                          "gets no response): %s :: %s" % (describe(d.get("case", {})), (d.get("detail") or "")[:200]))
         elif kind in ("hang", "none"):
             run.violation("hang:%s:%s" % (d.get("case", {}).get("kind"), ck), payload,
                           "an accepted value leads to neither normal operation nor an error (no outcome within 40 s): %s" % describe(d.get("case", {})))
